@@ -170,7 +170,7 @@ def lattice():
             out.append({"project": proj, "shortcut": "sc", "shortcuts": {"sc": a}, "envvar": other})
             out.append({"project": proj, "envvar": "report," + fl, "default_flags": ["short-report"]})
             out.append({"project": proj, "envvar": "short-report," + fl})
-        for fl in ("review", "report,update", "review,update", "update", "report", "create,fix,trim"):
+        for fl in ("review", "report,update", "review,update", "update", "report", "create,fix,trim", "fix,update", "create,fix,trim,update"):
             out.append({"project": proj, "cli": fl, "skip_updates": True, "answers": {c: True for c in CATS}})
         out.append({"project": proj, "shortcut": "fix"})
         out.append({"project": proj, "shortcut": "review", "answers": {"create": True}})
@@ -403,12 +403,16 @@ def execute(case, ctx):
         rfiles, rspec = build({"config": {"project": cfg.get("project"), "cli": ",".join(["review"] + sorted(by_flag)) if review_mode else ",".join(sorted(approved)),
                                           "answers": {c: True for c in approved - by_flag} if review_mode else None,
                                           "default_flags": cfg.get("default_flags"), "default_flags_tui": cfg.get("default_flags_tui"),
-                                          "shortcuts": cfg.get("shortcuts"), "skip_updates": cfg.get("skip_updates")}, "program": case.get("program")})
+                                          "shortcuts": cfg.get("shortcuts"), "skip_updates": False}, "program": case.get("program")})
+        # (the reference project does not hide updates: whether the option lets an explicitly approved update through is part of what is checked)
         rnew, rres = sim.run_session(ctx, "plugin", rfiles, rspec, timeout=90)
         if not sim.session_completed("plugin", rres):
             out["discards"]["reference-session-did-not-complete(C18)"] = 1
             return out
         exp = judged_tree(rnew)
+    if cfg.get("skip_updates"):
+        got = {k: v for k, v in got.items() if k != "pyproject.toml"}
+        exp = {k: v for k, v in exp.items() if k != "pyproject.toml"}
     if cfg.get("xfail_all"):
         # no test file takes part in the session, so with trim approved every external counts as unused (C13 S4): storage not compared here
         got = {k: v for k, v in got.items() if not k.startswith(".inline-snapshot/")}
